@@ -6,25 +6,14 @@ For requests carrying the same idempotency key: two successful completions of th
 least a lifetime apart (counted from the moment the first one's response was recorded) — i.e. at most
 one per key within its lifetime; every request answered without running the handler gets status, body
 and kept headers of that recorded execution; requests without a key / with a safe method are not
-touched; a request whose lookup or lock acquisition failed gets an error and the handler is not run
-for it.
+touched and a request is never made to wait by a request with another key; a request whose lookup or
+lock acquisition failed gets an error and the handler is not run for it. Every request is answered,
+except one that waits for a key whose lock was leaked by a failing `Unlock`.
+
+`Resp` (status, body, headers) and `kept` (the KeepResponseHeaders membership test) are the shared
+vocabulary of Model.lean.
 -/
 namespace C17.Spec
-
-/-- a response as far as the property looks at it; headers in wire order -/
-structure Resp where
-  status : Nat
-  body : String
-  hdrs : List (String × String)
-  deriving Repr, BEq, DecidableEq
-
-def lower (s : String) : String := s.map Char.toLower
-
-/-- KeepResponseHeaders: `none` = keep all, else keep the listed names (case-insensitive) -/
-def kept (keep : Option (List String)) (name : String) : Bool :=
-  match keep with
-  | none => true
-  | some l => l.any fun n => lower n == lower name
 
 /-- stable sort of headers by name (order between different names is not observable: the recorded
 headers travel through a Go map) -/
@@ -43,6 +32,9 @@ inductive Ev
   | exec (t : Tid) (ts : Nat)                  -- the handler ran for request t (second ts)
   | set (t : Tid) (ts : Nat) (ok : Bool)       -- request t's Storage.Set returned (ok / error) at ts
   | faulted (t : Tid) (atSet : Bool)           -- a lookup / lock (or Set) call of request t was made to fail
+  | unlockFailed (t : Tid)                     -- request t's Lock.Unlock was made to fail (lock not released)
+  | blocked (t : Tid) (inside : List Tid)      -- after an action request t was waiting inside Lock.Lock while the
+                                               --  requests `inside` were between Lock.Lock returning and Lock.Unlock
   | answered (t : Tid)                         -- request t finished
   deriving Repr
 
@@ -51,6 +43,7 @@ structure ThreadObs where
   own : Resp                -- what the handler answers for this request when it succeeds
   ran : Bool
   isErr : Bool              -- answered with an error status from the middleware / handler error
+  handlerErr : Bool         -- the error answered is the downstream handler's own error
   resp : Resp               -- the observed response (watched headers, sorted by name)
   touched : Bool            -- was seen at a storage / lock yield point or blocked
   noAnswer : Bool
@@ -73,13 +66,17 @@ def successes (obs : Tid → ThreadObs) (k : Key) (evs : List Ev) : List (Tid ×
 /-- clause 1: consecutive successful executions of a key are a lifetime apart.
 Returns (clause, inKnownRegionK1). -/
 def checkOnce (life : Nat) (obs : Tid → ThreadObs) (keys : List Key) (evs : List Ev) : Option (String × Bool) :=
-  keys.findSome? fun k =>
+  let all : List (String × Bool) := keys.flatMap fun k =>
     let ss := successes obs k evs
-    (ss.zip ss.tail).findSome? fun ((t1, _, set1, failed1), (t2, ts2, _, _)) =>
+    (ss.zip ss.tail).filterMap fun ((t1, _, set1, failed1), (t2, ts2, _, _)) =>
       match set1 with
       | some s1 => if s1 + life ≤ ts2 then none
                    else some (s!"at-most-once (handler completed for thread {t1} and again for thread {t2} of key {k} within the lifetime)", false)
       | none => some (s!"at-most-once (handler completed for thread {t1} and again for thread {t2} of key {k}; the first was never recorded)", failed1)
+  -- a failure outside the known region is never hidden behind one inside it
+  match all.find? (fun c => !c.2) with
+  | some c => some c
+  | none => all.head?
 
 /-- the execution a replayed answer must come from: the last successful execution of the key that
 happened before the request was answered -/
@@ -93,7 +90,12 @@ def checkThread (keep : Option (List String)) (watched : List String) (obs : Tid
     (t : Tid) : Option String :=
   let o := obs t
   let gotFault := evs.any fun e => match e with | .faulted t' false => t' == t | _ => false
-  if o.noAnswer then some s!"no-answer thread={t}"
+  if o.noAnswer then
+    -- only a request waiting for a key whose lock was leaked by a failing Unlock may stay unanswered
+    let leakedKey := o.req.key.isSome && evs.any fun e => match e with
+      | .unlockFailed t' => (obs t').req.key == o.req.key
+      | _ => false
+    if leakedKey then none else some s!"no-answer thread={t}"
   else match o.req.key with
   | none =>
     if o.req.invalid then
@@ -108,7 +110,11 @@ def checkThread (keep : Option (List String)) (watched : List String) (obs : Tid
       if o.ran then some s!"failure-no-execution (lookup/lock failed, handler ran) thread={t}"
       else if !o.isErr then some s!"failure-no-execution (lookup/lock failed, no error answer) thread={t}"
       else none
-    else if o.isErr then none      -- handler error passed through / Set failure: no answer to compare
+    else if o.isErr then
+      -- handler error passed through / Set failure: no answer to compare; but the handler's error is
+      -- never an answer to a request the handler was not run for
+      if o.handlerErr && !o.ran then some s!"same-answer (answered with a handler error that was not produced for it) thread={t}"
+      else none
     else if o.ran then
       if o.resp != record none watched o.own then some s!"same-answer (executing request's own response altered) thread={t}" else none
     else match sourceOf obs k t evs with
@@ -117,6 +123,14 @@ def checkThread (keep : Option (List String)) (watched : List String) (obs : Tid
         if o.resp != record keep watched (obs t0).own then
           some s!"same-answer (differs from the recorded execution of thread {t0}) thread={t}"
         else none
+
+/-- a request waits only for a request with the same key -/
+def checkBlocked (obs : Tid → ThreadObs) (evs : List Ev) : Option String :=
+  evs.findSome? fun e => match e with
+    | .blocked t inside =>
+      if (obs t).req.key.isSome && inside.any (fun t' => t' != t && (obs t').req.key == (obs t).req.key) then none
+      else some s!"others-unaffected (request waits although no request with the same key holds the lock) thread={t}"
+    | _ => none
 
 /-- first violated clause; the Bool says whether it lies in known-finding region K1 (Set fault after
 a successful execution) -/
@@ -129,6 +143,9 @@ def check (life : Nat) (keep : Option (List String)) (watched : List String) (n 
   | _ =>
     match (List.range n).findSome? fun t => checkThread keep watched obs evs t with
     | some c => some (c, false)
-    | none => once
+    | none =>
+      match checkBlocked obs evs with
+      | some c => some (c, false)
+      | none => once
 
 end C17.Spec
